@@ -1,0 +1,32 @@
+//go:build verif
+
+package server
+
+import (
+	"context"
+	"sync"
+
+	"github.com/sdcio/data-server/pkg/config"
+	"github.com/sdcio/data-server/pkg/datastore"
+)
+
+// NewForVerif returns a Server that holds no gRPC listener, no schema/cache
+// client of its own and no datastores; the harness adds datastores it built itself.
+func NewForVerif(c *config.Config) *Server {
+	ctx, cancel := context.WithCancel(context.Background())
+	return &Server{
+		config:     c,
+		ctx:        ctx,
+		cfn:        cancel,
+		ready:      true,
+		md:         &sync.RWMutex{},
+		datastores: make(map[string]*datastore.Datastore),
+	}
+}
+
+// VerifAddDatastore registers a harness-built datastore under the given name.
+func (s *Server) VerifAddDatastore(name string, ds *datastore.Datastore) {
+	s.md.Lock()
+	defer s.md.Unlock()
+	s.datastores[name] = ds
+}
